@@ -7,7 +7,7 @@
 pid=$1; n=$2; shift 2
 checks="${@:-$pid}"
 round=${ROUND:-1}
-if [ "$round" = "1" ]; then src=/tmp/wt_$pid/out; tag=m; else src=/tmp/wt${round}_$pid/out; tag=r${round}m; fi
+if [ "$round" = "1" ]; then src=/tmp/wt_$pid/out; tag=m; else src=/tmp/wt${round}_$pid/out; tag=r${TAG:-$round}m; fi
 dst=/verif/seeded/${pid}_${tag}$n
 wt=/tmp/wt_eval
 [ -d $wt ] || git -C /repo worktree add -q $wt HEAD
